@@ -42,7 +42,7 @@ os.environ.setdefault("NUMBA_NUM_THREADS", "4")      # shared machine; the polyn
 F = Fraction
 PROPS = ["HitenModel.Props.C08"]
 SRC = ["HitenModel.Core.C08", "HitenModel.Gen.C08", "HitenModel.Lemmas.C08", "HitenModel.Lemmas.C08Mv", "HitenModel.Lemmas.C08NF",
-       "HitenModel.Props.C08", "Drivers.C08"]
+       "HitenModel.Lemmas.LieSeries", "HitenModel.Lemmas.LieSeriesModel", "HitenModel.Props.C08", "Drivers.C08"]
 NMAX_GEN = 10
 REL = 1e-10          # correspondence tolerance (relative to the largest coefficient of the compared polynomial)
 GUARD = 1e-14        # expected small-divisor threshold (checked by probing in gen())
@@ -1088,7 +1088,7 @@ def run(ctx):
         "theorems assume exact cleaning (`tiny c -> c = 0`): with tol = 1e-30 the code only removes exact zeros of the model; float residues (1e-16 relative) at eliminated monomials are the numerical shell, measured <= 1e-9 relative",
         "theorems on term removal assume the input has no constant/linear part and the diagonal quadratic part (checked on every pipeline input: hypothesis:modal-input)",
         "packed index tables / dense array layout are C06's subject; positions are decoded by the harness' own enumeration",
-        "H_new = H_old o Phi, canonicity and forward o inverse = id are not theorems here (partial): they are checked coefficient-wise through degree N on the synthetic cases and by fitted exponents on the pipelines",
+        "H_new = H_old o Phi is a theorem for one generator on the model with exact cleaning (transform_is_composition); its iteration over the generator degrees, canonicity and forward o inverse = id are checked coefficient-wise through degree N on the synthetic cases and by fitted exponents on the pipelines (partial)",
     ]
 
 
